@@ -5,4 +5,5 @@
 void HEpush(hdf_err_code_t error_code, const char *function_name, const char *file_name, int line) {}
 void HEreport(const char *fmt, ...) {}
 void HEPclear(void) {}
+void HEclear(void) {}
 #endif
